@@ -181,7 +181,8 @@ class C33(Property):
         kind = c["kind"]
         if kind == "triple":
             a, b, cc, cat = c["a"], c["b"], c["c"], c["cat"]
-            fba, fcb, fca, fab = (impl_factor(b, a, None), impl_factor(cc, b, None), impl_factor(cc, a, None), impl_factor(a, b, None))
+            en = c.get("energy")  # forwarded to every in-category conversion, as the plotting code does; it must not matter
+            fba, fcb, fca, fab = (impl_factor(b, a, en), impl_factor(cc, b, en), impl_factor(cc, a, en), impl_factor(a, b, en))
             for (x, y), r in (((b, a), fba), ((cc, b), fcb), ((cc, a), fca), ((a, b), fab)):
                 if r[0] != "ok":
                     alias = [u for u in (x, y) if "Angstrom" in u]
@@ -198,12 +199,18 @@ class C33(Property):
                 ctx.violation(f"factor-not-unit-ratio-{which}", c, {"units": b, "old_units": a, "observed": fba[1], "expected": exp})
         elif kind == "axis":
             a, b, cc, cat = c["a"], c["b"], c["c"], c["cat"]
-            r1, _ = impl_axis(a, c["sampling"], c["offset"], b, None)
+            en, cls = c.get("energy"), c.get("cls", "LinearAxis")
+            r1, _ = impl_axis(a, c["sampling"], c["offset"], b, en, cls)
             if r1[0] != "ok":
                 ctx.violation(f"axis-conversion-raises-{cat}", c, {"step": [a, b], "raised": r1[1]}); return
-            r2, _ = impl_axis(b, r1[2], r1[3], cc, None)
-            r3, _ = impl_axis(a, c["sampling"], c["offset"], cc, None)
-            r4, _ = impl_axis(b, r1[2], r1[3], a, None)
+            r2, _ = impl_axis(b, r1[2], r1[3], cc, en, cls)
+            r3, _ = impl_axis(a, c["sampling"], c["offset"], cc, en, cls)
+            r4, _ = impl_axis(b, r1[2], r1[3], a, en, cls)
+            # unit-definition anchor for axes: new sampling / offset = old * size(a) / size(b)
+            ratio = float(SIZE[a] / SIZE[b])
+            if not (r1[1] == b and close(r1[2], c["sampling"] * ratio, **tol) and close(r1[3], c["offset"] * ratio, **tol)):
+                ctx.violation(f"axis-not-unit-ratio-{cat}", c, {"converted": r1, "expected_sampling": c["sampling"] * ratio, "expected_offset": c["offset"] * ratio})
+                return
             if "err" in (r2[0], r3[0], r4[0]):
                 ctx.violation(f"axis-conversion-raises-{cat}", c, {"results": [r2, r3, r4]}); return
             if not (r4[1] == a and close(r4[2], c["sampling"], **tol) and close(r4[3], c["offset"], **tol)):
@@ -234,11 +241,12 @@ class C33(Property):
             for a in us:
                 for b in us:
                     for cc in us:
-                        out.append(dict(kind="triple", cat=cat, a=a, b=b, c=cc))
+                        out.append(dict(kind="triple", cat=cat, a=a, b=b, c=cc, energy=rng.choice([None, None] + ENERGIES)))
         for _ in range(ctx.n(200, 4000)):
             cat = rng.choice(list(CATS))
             a, b, cc = (rng.choice(CATS[cat]) for _ in range(3))
-            out.append(dict(kind="axis", cat=cat, a=a, b=b, c=cc, sampling=dyadic(rng, 1 / 64, 4, 6) or 0.5, offset=dyadic(rng, -8, 8, 4)))
+            out.append(dict(kind="axis", cat=cat, a=a, b=b, c=cc, sampling=dyadic(rng, 1 / 64, 4, 6) or 0.5, offset=dyadic(rng, -8, 8, 4),
+                            energy=rng.choice([None, None] + ENERGIES), cls=rng.choice(["LinearAxis", "RealSpaceAxis", "ReciprocalSpaceAxis", "ScanAxis"])))
         for k in CATS["reciprocal_space"]:
             for a1 in CATS["angular"]:
                 for a2 in CATS["angular"]:
